@@ -11,7 +11,7 @@ import random
 NEST = ["nest_pass", "nest_fail", "nest_error", "nest_pending", "nest_undef"]      # the step calls context.execute_steps()
 OUTCOMES = ["pass", "fail", "error", "pending", "undefined", "skip", "kbd", "badarg", "skip_fail", "abort"] + NEST
 NONPASS = OUTCOMES[1:]
-TAGPOOL = ["t1", "t2", "wip"]
+TAGPOOL = ["t1", "t2", "wip", "android"]        # ("android": a name that contains the letters of a v2 keyword)
 
 # tag expressions as node tables: [op, a, b, name]; text rendering per dialect
 EXPRS = {
@@ -30,6 +30,7 @@ EXPRS = {
                                                                        ["lit", 0, 0, "wip"], ["or", 3, 4, ""], ["and", 5, 1, ""]], "root": 6},
     "parts_v1": {"text": "t1,wip", "more": ["-t2"], "nodes": [["lit", 0, 0, "t1"], ["lit", 0, 0, "wip"], ["or", 1, 2, ""],
                                                              ["lit", 0, 0, "t2"], ["not", 4, 0, ""], ["and", 3, 5, ""]], "root": 6},
+    "v1b": {"text": "android,t1", "nodes": [["lit", 0, 0, "android"], ["lit", 0, 0, "t1"], ["or", 1, 2, ""]], "root": 3},
     "v1": {"text": "-t1,t2", "nodes": [["lit", 0, 0, "t1"], ["not", 1, 0, ""], ["lit", 0, 0, "t2"], ["or", 2, 3, ""]], "root": 4},
     "wip": {"text": "wip", "nodes": [["lit", 0, 0, "wip"]], "root": 1},
     "not_wip": {"text": "not @wip", "nodes": [["lit", 0, 0, "wip"], ["not", 1, 0, ""]], "root": 2},
@@ -47,10 +48,11 @@ def scenario(steps, tags=()):
     return {"kind": "scenario", "tags": list(tags), "steps": [s if isinstance(s, dict) else step(s) for s in steps]}
 
 
-def outline(blocks, tags=(), ptag=False):
+def outline(blocks, tags=(), ptag=False, rtag=False):
     """blocks: list of (block tags, rows) ; row = list of steps/outcomes; all rows of an outline same length.
-    ptag: the outline additionally carries the parametrized tag @x<c1> (rendered per row from the first cell)"""
-    return {"kind": "outline", "tags": list(tags), "ptag": bool(ptag),
+    ptag: the outline additionally carries the parametrized tag @x<c1> (rendered per row from the first cell);
+    rtag: ... and the tag @t<row.index> (special placeholder: t1 for the first row of a block, t2 for the second)"""
+    return {"kind": "outline", "tags": list(tags), "ptag": bool(ptag), "rtag": bool(rtag),
             "blocks": [{"tags": list(bt), "rows": [[s if isinstance(s, dict) else step(s) for s in row] for row in rows]}
                        for bt, rows in blocks]}
 
@@ -135,12 +137,14 @@ def flatten(prog):
                     oe = new("outline", parent["id"], it["tags"])
                     oe["fidx"] = fi
                     for b in it["blocks"]:
-                        for row in b["rows"]:
+                        for ri, row in enumerate(b["rows"]):
                             ptag = []
+                            if it.get("rtag"):
+                                ptag = ["t%d" % (ri + 1)]    # outline tag @t<row.index>, rendered per row
                             if it.get("ptag"):
                                 o1 = row[0]["o"]
                                 cell = "nodef own 1" if o1 == "undefined" else ("bad own 1" if o1 == "badarg" else "own 1")
-                                ptag = ["x" + cell.replace(" ", "_")]          # Tag.make_name of the rendered tag
+                                ptag = ["x" + cell.replace(" ", "_")] + ptag    # Tag.make_name of the rendered tag
                             se = new("scenario", oe["id"], list(it["tags"]) + ptag + list(b["tags"]))
                             se["fidx"] = fi
                             se["steps"] = mk_steps(inherited_fbg, rbg, row)
@@ -218,13 +222,13 @@ def family_tree(rnd, n, quick=False):
             blocks = []
             for _ in range(rnd.randint(1, 2)):
                 blocks.append((rtags(0.3), [[rnd.choice(outcomes) for _ in range(nst)] for _ in range(rnd.randint(1, 2))]))
-            return outline(blocks, rtags(0.3), ptag=rnd.random() < 0.3)
+            return outline(blocks, rtags(0.3), ptag=rnd.random() < 0.3, rtag=rnd.random() < 0.25)
         return scenario([rnd.choice(outcomes) for _ in range(0 if rnd.random() < 0.1 else rnd.randint(1, 2))], rtags())
 
     def routline():
         nst = rnd.randint(1, 2)
         return outline([(rtags(0.3), [[rnd.choice(outcomes) for _ in range(nst)] for _ in range(rnd.randint(1, 2))])], rtags(0.3),
-                       ptag=rnd.random() < 0.3)
+                       ptag=rnd.random() < 0.3, rtag=rnd.random() < 0.25)
 
     for _ in range(n):
         feats = []
